@@ -2,6 +2,8 @@ package rules
 
 import (
 	"fmt"
+	"go/ast"
+	"strings"
 	"go/token"
 
 	"golang.org/x/tools/go/ssa"
@@ -15,11 +17,32 @@ import (
 // everything after it — the remaining members of a loop, the remaining rules of a function — is silently dead:
 // the walk over the allOf parents stops after the first parent, a rule stops firing. Conditions of that kind that
 // do not guard an exit are left alone (they are at worst useless).
-func DeadTail(p *core.Prog, r *core.Report) {
+// DeadTail examines the whole package; DeadTailIn only the given files (a property is told about its own code).
+func DeadTail(p *core.Prog, r *core.Report) { deadTail(p, r, nil) }
+
+func DeadTailIn(files ...string) Rule {
+	return func(p *core.Prog, r *core.Report) { deadTail(p, r, files) }
+}
+
+func deadTail(p *core.Prog, r *core.Report, files []string) {
 	const rule = "DEAD-TAIL"
+	inScope := func(filename string) bool {
+		if len(files) == 0 {
+			return true
+		}
+		for _, f := range files {
+			if strings.HasSuffix(filename, "/"+f) {
+				return true
+			}
+		}
+		return false
+	}
+	fnInScope := func(f *ssa.Function) bool {
+		return inScope(p.Fset.Position(core.EnclosingTop(f).Pos()).Filename)
+	}
 	n, bad := 0, 0
 	for _, f := range p.Funcs {
-		if !p.InSubject(f) {
+		if !p.InSubject(f) || !fnInScope(f) {
 			continue
 		}
 		for _, b := range f.Blocks {
@@ -97,6 +120,102 @@ func DeadTail(p *core.Prog, r *core.Report) {
 	if bad == 0 {
 		r.OK(rule, "none", "-", fmt.Sprintf("no early exit is guarded by a condition that is constant by construction (%d branches examined)", n))
 	}
+	// a loop that cannot come round: the head of a range / for statement without an edge coming back — its body
+	// always leaves (a break or return at its end), so that only the first element is ever looked at
+	nLoops, once := 0, 0
+	for _, f := range p.Funcs {
+		if !p.InSubject(f) || !fnInScope(f) {
+			continue
+		}
+		for _, b := range f.Blocks {
+			isHead := strings.HasSuffix(b.Comment, ".loop")
+			for _, ins := range b.Instrs {
+				if _, isNext := ins.(*ssa.Next); isNext {
+					isHead = true
+				}
+			}
+			if !isHead || len(b.Instrs) == 0 {
+				continue
+			}
+			nLoops++
+			back := false
+			for _, pr := range b.Preds {
+				if b.Dominates(pr) {
+					back = true
+				}
+			}
+			if !back {
+				once++
+				r.Bad(rule, core.FuncName(f)+":loop-runs-once", p.Pos(posOf(b.Instrs[len(b.Instrs)-1], f)), "this loop can never reach its second element: every path through its body leaves it")
+			}
+		}
+	}
+	// the same on the syntax tree (a head without a way back is merged into its predecessor by go/ssa and loses its
+	// mark): a for / range body whose last statement is an unconditional break or return, with no continue inside
+	for _, pkg := range p.Pkgs {
+		if pkg.Types == nil || !p.InSubjectPkg(pkg.Types) {
+			continue
+		}
+		for _, file := range pkg.Syntax {
+			if !inScope(pkg.Fset.Position(file.Pos()).Filename) {
+				continue
+			}
+			for _, d := range file.Decls {
+				fd, ok := d.(*ast.FuncDecl)
+				if !ok || fd.Body == nil {
+					continue
+				}
+				ast.Inspect(fd.Body, func(n ast.Node) bool {
+					var body *ast.BlockStmt
+					switch x := n.(type) {
+					case *ast.ForStmt:
+						body = x.Body
+					case *ast.RangeStmt:
+						body = x.Body
+					}
+					if body == nil || len(body.List) == 0 {
+						return true
+					}
+					leaves := false
+					switch l := body.List[len(body.List)-1].(type) {
+					case *ast.BranchStmt:
+						leaves = l.Tok == token.BREAK && l.Label == nil
+					case *ast.ReturnStmt:
+						leaves = true
+					}
+					if !leaves {
+						return true
+					}
+					hasContinue := false
+					ast.Inspect(body, func(m ast.Node) bool {
+						switch y := m.(type) {
+						case *ast.BranchStmt:
+							if y.Tok == token.CONTINUE {
+								hasContinue = true
+							}
+						case *ast.FuncLit:
+							return false
+						}
+						return true
+					})
+					if !hasContinue {
+						once++
+						r.Bad(rule, fd.Name.Name+":loop-runs-once", p.Pos(body.List[len(body.List)-1].Pos()), "this loop can never reach its second element: its body ends in an unconditional break / return")
+					}
+					return true
+				})
+			}
+		}
+	}
+	if once == 0 {
+		r.OK(rule, "loops-come-round", "-", fmt.Sprintf("each of the %d loops can reach a second iteration", nLoops))
+	}
+	r.Count("loops_examined", nLoops)
+	if len(files) == 0 {
+		r.Floor("loops_examined", 60)
+	}
 	r.Count("branches_examined", n)
-	r.Floor("branches_examined", 500)
+	if len(files) == 0 {
+		r.Floor("branches_examined", 500)
+	}
 }
